@@ -316,7 +316,14 @@ class IncludeIpsNode(NodeProtocol):
                 block_addr = (block_addr_bytes[0] << 16) | block_addr_bytes[1]
                 block_size_word = struct.unpack(">H", ips_file.read(2))
                 block_size = block_size_word[0]
-                block = ips_file.read(block_size)
+                if block_size == 0:
+                    # run-length record: 2 bytes count, 1 byte value.
+                    rle_count, rle_value = struct.unpack(">HB", ips_file.read(3))
+                    block = bytes([rle_value]) * rle_count
+                else:
+                    block = ips_file.read(block_size)
+                    if len(block) != block_size:
+                        raise RuntimeError(f"{self.ips_file_path} has a truncated record")
 
                 if self.delta is not None:
                     block_addr += self.delta
